@@ -93,6 +93,13 @@ func (s *Sched) Abandon() {
 //go:norace
 func (s *Sched) CurKey() uint64 { return s.curKey }
 
+// CapacityError is the panic value used when a fixed model capacity (threads, timers, waiters,
+// channel queues) is exceeded, or a shim is used in a mode it does not support: that is a limit of
+// the machinery, never a property violation, and ends the run with an internal error.
+type CapacityError string
+
+func (e CapacityError) Error() string { return string(e) }
+
 type abortT struct{}
 
 var abortSentinel = &abortT{}
@@ -178,6 +185,7 @@ type Result struct {
 	Capped    bool     // step horizon reached
 	Abandoned bool     // ended early by the chooser (state already covered)
 	Panic     string   // non-sentinel panic in a thread
+	Internal  string   // a model capacity was exceeded (not a property violation)
 	Trace     []Step
 	EndClock  int64
 	Threads   int
@@ -204,7 +212,7 @@ type Sched struct {
 	curKey    uint64
 	abandoned bool
 	objLast   map[any]uint64
-	global    uint64 // hash of the latest global event (timer firing, quiescence wake-up)
+	global    uint64   // hash of the latest global event (timer firing, quiescence wake-up)
 	endRA     RaceAddr // finishing thread -> Run edge (the harness reads the execution's results afterwards)
 }
 
@@ -307,7 +315,7 @@ func Run(ch Chooser, cfg Config, main func()) *Result {
 //go:norace
 func (s *Sched) newThread(f func()) *Thread {
 	if len(s.threads) >= maxThreads {
-		panic("vrt: too many threads")
+		panic(CapacityError("vrt: too many threads"))
 	}
 	t := &Thread{ID: len(s.threads), resume: make(chan struct{}, 1), exited: make(chan struct{}, 1), f: f, sched: s}
 	t.pend = true
@@ -362,6 +370,13 @@ func (t *Thread) exit() {
 	t.ra.Release()
 	if !RaceMode {
 		s.objLast[t] = mix(s.objLast[t], t.last)
+	}
+	if ce, ok := r.(CapacityError); ok {
+		if s.res.Internal == "" {
+			s.res.Internal = string(ce)
+		}
+		s.finish()
+		return
 	}
 	if r != nil && r != any(abortSentinel) {
 		if s.res.Panic == "" {
@@ -675,7 +690,7 @@ func (s *Sched) pickNext(from *Thread) *Thread {
 func Go(f func()) *Thread {
 	s := S
 	if s == nil {
-		panic("vrt.Go outside scheduler")
+		panic(CapacityError("vrt.Go outside scheduler (goroutines are not modelled in pass-through mode)"))
 	}
 	if s.aborting {
 		panic(abortSentinel)
